@@ -141,21 +141,27 @@ pub fn prepare(ctx: &mut Ctx, case: &Value) {
     let len = 4096;
     assert!(data.len() < len && addr % 4096 == 0);
     unsafe {
-        // the same address is reused by every case of this worker
-        let p = libc::mmap(
-            addr as *mut _,
-            len,
-            libc::PROT_READ | libc::PROT_WRITE,
-            libc::MAP_PRIVATE | libc::MAP_ANONYMOUS | libc::MAP_FIXED,
-            -1,
-            0,
-        );
-        if p as usize != addr {
-            eprintln!("cannot map external memory at {addr:#x} (tool error)");
-            std::process::exit(3);
+        // mapped once per worker process (never over an existing mapping); later cases reuse it
+        static MAPPED_AT: std::sync::atomic::AtomicUsize = std::sync::atomic::AtomicUsize::new(0);
+        let prev = MAPPED_AT.load(std::sync::atomic::Ordering::Relaxed);
+        if prev != addr {
+            let p = libc::mmap(
+                addr as *mut _,
+                len,
+                libc::PROT_READ | libc::PROT_WRITE,
+                libc::MAP_PRIVATE | libc::MAP_ANONYMOUS | libc::MAP_FIXED_NOREPLACE,
+                -1,
+                0,
+            );
+            if p as usize != addr {
+                eprintln!("cannot map external memory at {addr:#x} (tool error)");
+                std::process::exit(3);
+            }
+            MAPPED_AT.store(addr, std::sync::atomic::Ordering::Relaxed);
         }
-        std::ptr::write_bytes(p as *mut u8, 0, len);
-        std::ptr::copy_nonoverlapping(data.as_ptr(), p as *mut u8, data.len());
+        let p = addr as *mut u8;
+        std::ptr::write_bytes(p, 0, len);
+        std::ptr::copy_nonoverlapping(data.as_ptr(), p, data.len());
     }
     ctx.ext = Some((addr, data.len()));
 }
